@@ -29,6 +29,9 @@ mod c17;
 mod c18;
 mod softmmu;
 mod crash;
+mod c13;
+mod c13_gen;
+mod deliver;
 
 use gen::Rng;
 use out::Out;
@@ -116,6 +119,7 @@ fn main() {
         "C16" => c16::run(&mut out, &mut rng, tier),
         "C17" => c17::run(&mut out, &mut rng, tier),
         "C18" => c18::run(&mut out, &mut rng, tier),
+        "C13" => c13::run(&mut out, &mut rng, tier),
         "trapselftest" => match trap::selftest() {
             Ok(()) => eprintln!("trap selftest ok ({} traps)", trap::total_traps()),
             Err(e) => {
